@@ -196,6 +196,7 @@ func runC05(c *Ctx) {
 	runC05Start(c, conv)
 	runC05Lookahead(c)
 	c05Lockstep(c, c.P)
+	c05LocationCopied(c, c.P)
 	// one-based
 	be := newBoundsEngine(p)
 	for fn := range conv {
